@@ -160,7 +160,11 @@ func runProperty(e *Engine, prop string, tier string, seed int) *CheckOutcome {
 	funcs, lemmas := e.targetsFor(prop)
 	var obls []*Obligation
 	var decided []*OblResult
+	only := os.Getenv("GOVC_ONLY") // development aid: restrict to functions whose key contains this text
 	for _, key := range funcs {
+		if only != "" && !strings.Contains(key, only) {
+			continue
+		}
 		r := e.VerifyFunc(key)
 		out.FnResults = append(out.FnResults, r)
 		if r.Err != "" {
